@@ -567,6 +567,10 @@ func discharge(m *Machine, h HarnessSpec, rep *HarnessReport, overlay map[string
 					rep.Failures[fi].Replay = "spurious: assumption not satisfied natively"
 				case containsStr(o.Failed, id) || (id == "" && len(o.Failed) > 0):
 					rep.Failures[fi].Replay = "reproduced"
+				case kindOf(rep.Failures[fi].What) != "assert" && h.ReplayEntry != "" && len(o.Failed) > 0:
+					// the encoding stopped at a run-time fault it could not look behind (e.g. a value it does not model);
+					// the replay entry asks the property's question of the compiled code, and that fails
+					rep.Failures[fi].Replay = "reproduced (the native replay entry fails: " + o.Failed[0] + ")"
 				case kindOf(rep.Failures[fi].What) == "overflow" && len(o.Failed) > 0:
 					// a machine-integer overflow has no native symptom of its own; the inputs that overflow make an
 					// assertion of the harness fail on the compiled code
